@@ -68,6 +68,22 @@ struct AppTokenWorld : World
         x = 0;
     if (w[K_REG] == 0)
       w[K_REG] = 10;
+    if (layer == 1 && limit == 4095 && r.chance(1, 10)) {
+      // swarm mode "shrink": fill the token space, then re-create the sandbox with 256 bytes while every owner
+      // survives, then register again - every token the new incarnation could issue is taken
+      Op fill;
+      fill.kind = K_REG_MANY;
+      fill.a[0] = 300;
+      Op shrinkop;
+      shrinkop.kind = K_RECREATE;
+      shrinkop.a[1] = 1;
+      Op drop; // one owner whose token lies above what the small incarnation can hold gives it up
+      drop.kind = K_DESTROY;
+      drop.a[0] = 270 + (int64_t)r.below(20);
+      Op reg;
+      reg.kind = K_REG;
+      p.ops = r.chance(1, 2) ? std::vector<Op>{ fill, drop, shrinkop, reg, reg } : std::vector<Op>{ fill, shrinkop, drop, reg, reg };
+    }
     for (int i = 0; i < n; i++) {
       Op o;
       o.kind = (int)r.weighted(w);
@@ -308,17 +324,24 @@ struct AppTokenWorld : World
       };
       auto do_reg = [&](const char* opn) -> bool {
         int* ptr = &g_objs[next_obj++ % 8192];
+        if (next_obj % 5 == 2 && next_obj > 1) {
+          ptr = &g_objs[(next_obj - 2) % 8192]; // the pointer registered just before, once more: a second, different token for it
+          c.probe("same_application_pointer_registered_twice");
+        }
         if (next_obj % 7 == 3) {
           ptr = nullptr; // a null application pointer is a pointer like any other: it gets a token that resolves to it
           c.probe("null_application_pointer_registered");
         }
         Slot s;
         Outcome o = attempt([&] { s.o = std::make_unique<Owner>(sb.get_app_pointer(ptr)); });
-        bool full = model.size() >= (size_t)limit;
+        size_t within = 0; // live tokens that count against the current limit (older incarnations may have issued larger ones)
+        for (auto& kv : model)
+          within += kv.first <= (uint64_t)limit;
+        bool full = within >= (size_t)limit;
         if (full) {
           c.probe("token_space_exhausted");
           if (o != ABORT) {
-            c.violate("C15", std::string("full_table_issued_token@") + opn, "limit=%lld", (long long)limit);
+            c.violate("C15", std::string("full_table_issued_token@") + opn, "limit=%lld outcome=%s token=%llu", (long long)limit, oname(o), s.o ? (unsigned long long)(uintptr_t)s.o->UNSAFE_sandboxed(sb) : 0ULL);
             return false;
           }
           return true;
@@ -403,6 +426,8 @@ struct AppTokenWorld : World
             if (lv.empty())
               break;
             Slot& s = slots[lv[(uint64_t)op.a[0] % lv.size()]];
+            if (s.tok > (uint64_t)limit)
+              break; // issued by an incarnation with more memory: cannot be expressed as a pointer into the current one
             int* got = nullptr;
             Outcome o;
             if (s.inc == incarnation) {
@@ -520,8 +545,18 @@ struct AppTokenWorld : World
             Outcome o = attempt([&] {
               sb.destroy_sandbox();
               if constexpr (is_sim) {
+                // the new incarnation may have less (or more) memory: tokens of surviving owners keep their values,
+                // new tokens obey the new limit
+                unsigned pick = (unsigned)((uint64_t)op.a[1] % 4);
+                if (pick == 1)
+                  Sbx::cfg.size = 256;
+                else if (pick == 2)
+                  Sbx::cfg.size = 4096;
                 sb.create_sandbox(0);
                 base = (uintptr_t)sb.get_sandbox_impl()->mem.base;
+                if ((int64_t)Sbx::cfg.size - 1 < limit)
+                  c.probe("sandbox_recreated_with_less_memory");
+                limit = (int64_t)Sbx::cfg.size - 1;
               } else {
                 sb.create_sandbox();
               }
@@ -547,7 +582,7 @@ struct AppTokenWorld : World
             c.violate("C15", std::string("owner_registered_flag_wrong@") + opn, "model tok=%llu is_unregistered=%d", (unsigned long long)s.tok, (int)unreg);
             break;
           }
-          if (s.tok && checked < 24) {
+          if (s.tok && s.tok <= (uint64_t)limit && checked < 24) {
             checked++;
             int* got = nullptr;
             Outcome o;
